@@ -7,9 +7,9 @@ stage of a two-stage run).  The REAL `Experiment.run` is executed on fresh scrip
 Result and of `Result.from_file` are compared with a plain-Python reference: the yielded rows / params under the
 statement's normalisation.  Nothing is sampled.
 """
-import os, json, math, itertools, re, shutil, traceback
+import os, sys, json, math, itertools, re, shutil, subprocess, traceback
 
-from vf.core import Check, REPO, tmpdir
+from vf.core import Check, REPO, tmpdir, HarnessError
 
 from coba.context import CobaContext, NullLogger, MemoryCacher
 from coba.pipes import ListSink
@@ -31,6 +31,9 @@ VALUES = {
     # additions to the design's alphabet (float that collapses to an int, rounding inside a top-level sequence,
     # nested tuple, multi-character string)
     'f2.0': lambda: 2.0, 'l_f': lambda: [0.123456789, 2.0], 't_nest': lambda: ((1, 2), 'a'), 's_ab': lambda: 'ab',
+    # text alphabet: non-ascii text (accented, CJK, non-BMP emoji) and a LONE SURROGATE (what os.fsdecode(b'caf\xe9.csv') gives)
+    's_cjk': lambda: '\u65e5\u672c\u8a9e', 's_emoji': lambda: 'x\U0001f600', 's_surr': lambda: 'caf\udce9.csv',
+    'l_text': lambda: ['\u65e5\u672c', 'caf\udce9'], 'd_text': lambda: {'k': '\U0001f600\xe9'},
 }
 V_DESIGN = ['i0', 'i1', 'f-1.5', 'f.123456789', 'f1e-7', 'f1e20', 'true', 'none', 'nan', 'inf', 's_a', 's_uni', 's_empty',
             'l12', 't12', 'll', 'l_empty', 'd_k1', 'd_kl', 'br1']
@@ -39,7 +42,8 @@ V_ALL = V_DESIGN + V_EXTRA
 V_CORE = ['i1', 'f.123456789', 'none', 's_a', 'l12', 'd_k1']          # the 6-value core of the design
 V_MID = ['i1', 'f.123456789', 'none', 's_a', 'l12', 'd_k1', 't12', 'nan', 's_uni', 'l_empty']
 
-KEYS = {'reward': 'reward', 'x': 'x', 'k1': 1, 'k2.5': 2.5}
+V_TEXT = ['s_uni', 's_cjk', 's_emoji', 's_surr', 'l_text', 'd_text']
+KEYS = {'reward': 'reward', 'x': 'x', 'k1': 1, 'k2.5': 2.5, 'k_txt': '\xfc\u65e5'}      # k_txt: a non-ascii field name (text section only)
 K_ALL = ['x', 'reward', 'k1', 'k2.5']
 
 
@@ -152,7 +156,7 @@ def diff(exp, got, top=True):
             d = diff(e, got[str(k)], False)
             if d: return d if d.startswith('nested ') else 'nested ' + d
         return None
-    raise AssertionError(f'value outside the alphabet: {exp!r}')
+    raise AssertionError(f'value outside the alphabet: {exp!a}')
 
 
 def same_loose(a, b):
@@ -260,16 +264,16 @@ def compare(exp: Expect, snap, completed, logged):
             for k in p: allkeys[str(k)] = k
         for k in allkeys:
             if k not in cols:
-                out.append((f'{name}|column missing|{keytype(allkeys[k])}', f'{name}: no column {k!r} (columns {cols})'))
+                out.append((f'{name}|column missing|{keytype(allkeys[k])}', f'{name}: no column {k!a} (columns {cols})'))
         for c in cols:
             if c == idcol: continue
             for i, p in want.items():
                 got = byid[i][0][c]
                 if c in allkeys and allkeys[c] in p:
                     d = diff(p[allkeys[c]], got)
-                    if d: out.append((f'{name}|{d}|{"sequence" if is_seq(p[allkeys[c]]) else "non-sequence"} param', f'{name}[{i}][{c!r}]: component gave {p[allkeys[c]]!r}, table has {got!r}'))
+                    if d: out.append((f'{name}|{d}|{"sequence" if is_seq(p[allkeys[c]]) else "non-sequence"} param', f'{name}[{i}][{c!a}]: component gave {p[allkeys[c]]!a}, table has {got!a}'))
                 elif not is_none(got):
-                    out.append((f'{name}|absent field not None|param', f'{name}[{i}][{c!r}]: component has no such param, table has {got!r}'))
+                    out.append((f'{name}|absent field not None|param', f'{name}[{i}][{c!a}]: component has no such param, table has {got!a}'))
     # ---- interactions
     cols, rows = tables['interactions']
     groups = {}
@@ -294,7 +298,7 @@ def compare(exp: Expect, snap, completed, logged):
             for k in w: allkeys[str(k)] = k
         for k in allkeys:
             if k not in cols:
-                out.append((f'interactions|column missing|{keytype(allkeys[k])}', f'interactions: no column {k!r} (columns {cols})'))
+                out.append((f'interactions|column missing|{keytype(allkeys[k])}', f'interactions: no column {k!a} (columns {cols})'))
         for c in cols:
             if c in ID_COLS: continue
             if c in allkeys:
@@ -307,10 +311,10 @@ def compare(exp: Expect, snap, completed, logged):
                         orders = {tuple(map(str, r)) for r in want}
                         d, f2 = 'value filed under another field of the same row', (
                             'rows with equal key sets in different insertion orders' if len(orders) > 1 and len({frozenset(o) for o in orders}) == 1 else 'rows in one insertion order or ragged')
-                        out.append((f'interactions|{d}|{f2}', f'triple {t} row {i + 1} field {c!r}: evaluator yielded {w[allkeys[c]]!r}, table has {g[c]!r}'))
-                    elif d: out.append((f'interactions|{d}|{feat}', f'triple {t} row {i + 1} field {c!r}: evaluator yielded {w[allkeys[c]]!r}, table has {g[c]!r}'))
+                        out.append((f'interactions|{d}|{f2}', f'triple {t} row {i + 1} field {c!a}: evaluator yielded {w[allkeys[c]]!a}, table has {g[c]!a}'))
+                    elif d: out.append((f'interactions|{d}|{feat}', f'triple {t} row {i + 1} field {c!a}: evaluator yielded {w[allkeys[c]]!a}, table has {g[c]!a}'))
                 elif not is_none(g[c]):
-                    out.append(('interactions|absent field not None|ragged rows', f'triple {t} row {i + 1} has no field {c!r}, table has {g[c]!r}'))
+                    out.append(('interactions|absent field not None|ragged rows', f'triple {t} row {i + 1} has no field {c!a}, table has {g[c]!a}'))
     return out
 
 
@@ -324,7 +328,7 @@ def identical(a, b, strict_columns=True):
         if len(ra) != len(rb): return f'{name} row count', f'{len(ra)} vs {len(rb)}'
         for i, (x, y) in enumerate(zip(ra, rb)):
             for c in ca:
-                if not same_loose(x[c], y[c]): return f'{name} values', f'row {i} column {c!r}: {x[c]!r} vs {y[c]!r}'
+                if not same_loose(x[c], y[c]): return f'{name} values', f'row {i} column {c!a}: {x[c]!a} vs {y[c]!a}'
     if not same_loose(xa, xb): return 'experiment dict', f'{xa} vs {xb}'
     return None
 
@@ -385,7 +389,9 @@ class C07(Check):
             'list orders x every row-count vector over {0,1,2} (thorough {0..3}) x every non-empty stage-one failure set (quick, 4 triples: '
             'sizes 1 and 4 plus two pairs); each case runs in 5 sink modes '
             '(no file, plain, .gz, restored plain, restored .gz); (5) a content subset x 7 result-file names (".gz" nowhere / suffix / '
-            'inside the base name / in a directory name / both / upper case / "gz" without dot) x fresh runs, restored runs and runs onto an existing empty file. A case is non-trivial when the normalisation had something to do '
+            'inside the base name / in a directory name / both / upper case / "gz" without dot) x fresh runs, restored runs and runs onto an existing empty file; (6) non-ascii text (accented, CJK, non-BMP) and a lone surrogate as '
+            'recorded values, nested values, params and field names, in-process and again in a child interpreter with a C (ascii) locale; '
+            'section (4) also lists the SAME triple twice/thrice. A case is non-trivial when the normalisation had something to do '
             '(non-string key, absent field, top-level sequence, float needing rounding or int collapse) or >=2 triples were given')
     ASSUMPTIONS = [
         'in-process runs only (processes=1, maxchunksperchild=0); the multi-process path is C01/C08',
@@ -401,6 +407,8 @@ class C07(Check):
         'whether a result file is gzip-compressed is not constrained, only that run(file), from_file(file) and the no-file run agree for every file name',
         'result files that a killed run left torn (cut inside a record, incl. inside the very first one) are C02\'s subject and not enumerated here; '
         'only complete earlier runs (restored) and an existing 0-byte file are',
+        'a triple listed more than once is one triple of the Result (same ids): N rows numbered 1..N; the scripted evaluator yields the same rows at every evaluation, so which evaluation is kept is not constrained',
+        'the C-locale child re-runs only the text cases (section 6) with the two standard file names',
         'exceptions: the statement promises a Result, so an exception from Experiment.run / Result.from_file is a violation',
     ]
     TECHNIQUE = ('bounded-exhaustive enumeration of evaluator outputs and params over value/key alphabets x 5 sink modes on the real '
@@ -437,6 +445,15 @@ class C07(Check):
                 rs.append(r)
             rows.append(rs)
         return rows
+
+    def text_cases(self):
+        for k in K_ALL + ['k_txt']:
+            for v in V_TEXT[1:] if k != 'k_txt' else V_TEXT + ['i1']: yield dict(self.single([[[k, v]]]), text=True)
+        for v1 in V_TEXT:
+            for v2 in V_TEXT: yield dict(self.single([[['x', v1]], [['x', v2]]]), text=True)
+        for comp in ('envp', 'lrnp', 'valp'):
+            for k in ('x', 'k1', 'k_txt'):
+                for v in V_TEXT[1:] if k != 'k_txt' else V_TEXT[:4]: yield dict(self.single(**{comp: [[k, v]]}), text=True)
 
     def cases(self, tier):
         quick = tier == 'quick'
@@ -504,6 +521,9 @@ class C07(Check):
             for f in fs:
                 yield {'envs': [[['x', 'i1']], [['k1', 'l12']]], 'lrns': [[], [['x', 's_a']]], 'vals': [[], [['k2.5', 'none']]],
                        'triples': trip, 'rows': self.multi_rows(ns), 'fail1': list(f), 'files': names, 'empty': True}
+        for v in V_TEXT[1:]: yield dict(self.single([[['x', v]]]), files=names, empty=True)
+        # (6) text: non-ascii strings and a lone surrogate as recorded values, params and field names (also run in a C-locale child, see post)
+        for c in self.text_cases(): yield c
         # (3b) two components of one kind with (possibly ragged) one-key params
         kp = [('x', 'x'), ('x', 'k1'), ('k1', 'x'), ('reward', 'k2.5')] if quick else [(a, b) for a in K_ALL for b in K_ALL]
         for comp in ('envs', 'lrns', 'vals'):
@@ -526,10 +546,13 @@ class C07(Check):
             [[1, 1, 0], [0, 0, 0], [1, 0, 0], [0, 1, 0]],
             [[0, 0, 0], [1, 1, 1], [0, 1, 1]],
             [[0, 0, 1], [0, 0, 0], [1, 0, 1], [1, 0, 0]],
+            # the SAME triple listed more than once (same objects -> same ids; the learner is deep-copied and evaluated again)
+            [[0, 0, 0], [0, 0, 0]], [[0, 0, 0], [0, 1, 0], [0, 0, 0]], [[0, 0, 0], [1, 0, 0], [0, 0, 0], [1, 0, 0]],
         ]
         counts = (0, 1, 2) if quick else (0, 1, 2, 3)
         for trip in shapes:
             T = len(trip)
+            if quick and T == 4 and trip[0] == trip[2]: continue
             for ns in itertools.product(counts, repeat=T):
                 if sum(ns) == 0: continue
                 if not quick and T == 4 and max(ns) == 3 and sum(1 for n in ns if n == 3) > 1: continue
@@ -583,7 +606,7 @@ class C07(Check):
         if not hasattr(self, '_n'): self.setup('quick')
         exp = Expect(case)
         trip = exp.trip
-        allt = list(trip)
+        allt = list(dict.fromkeys(trip))          # a triple listed twice is one triple of the result (same ids)
         fail1 = list(case.get('fail1') or [])
         mixed = 'some column mixes sequence and non-sequence values' if exp.any_mixed() else 'no mixed column'
         if exp.normalisation_applied() or len(trip) >= 2: acc.mark_nontrivial()
@@ -595,12 +618,19 @@ class C07(Check):
             found.setdefault(mode, {}).setdefault(key, what)
 
         def exc(mode, phase, e):
-            note(mode, f'result|raises {type(e).__name__}@{where_raised(e)}|{mixed}', f'{phase} raised {e!r}')
+            note(mode, f'result|raises {type(e).__name__}@{where_raised(e)}|{mixed}', f'{phase} raised {e!a}')
 
         def check(mode, phase, st, completed, log):
             if st[0] == 'exc':
                 exc(mode, phase, st[1]); sig.append((mode, phase, type(st[1]).__name__)); return None
-            for key, what in compare(exp, st[1], completed, logged_exception_names(log)):
+            names = logged_exception_names(log)
+            mism = compare(exp, st[1], completed, names)
+            if mism and names:
+                # the pipeline of Experiment.run failed (the exception was logged, not raised): one key for whatever is missing afterwards
+                note(mode, f'result|incomplete Result after Experiment.run logged {"+".join(sorted(set(names)))}|experiment failed',
+                     f'[{phase}] {len(mism)} mismatches, first: {mism[0][1]}')
+                sig.append((mode, phase, 'logged')); return None
+            for key, what in mism:
                 note(mode, key, f'[{phase}] {what}')
             return st[1]
 
@@ -620,7 +650,8 @@ class C07(Check):
             try:
                 completed = allt
                 if stage == 'restored':
-                    done1 = [t for i, t in enumerate(trip) if i not in fail1]
+                    failed1 = {trip[i] for i in fail1}
+                    done1 = [t for t in dict.fromkeys(trip) if t not in failed1]
                     s1 = self._run(case, path, fail1, log)
                     log1 = [l for l in log if 'EvalFailure' not in str(l)]
                     check(mode, 'stage-one Experiment.run(file)', s1, done1, log1)
@@ -671,6 +702,41 @@ class C07(Check):
         acc.outcome((tuple(sorted(k for m in found.values() for k in m)), tuple(sig), shape))
         acc.count('experiment_runs', 1 + (3 + ('empty' in stages)) * len(files))
         acc.count('results_compared', 1 + (5 + 2 * ('empty' in stages)) * len(files))
+
+
+    # ---------------------------------------------------------------- the same text cases in a child interpreter with a C locale
+
+    def _c_locale_child(self, cases):
+        """Run `cases` through run_case in a child python whose locale encoding is ascii (LC_ALL=C, no utf-8 mode, no coercion):
+        what DiskSink writes and DiskSource reads must not depend on the locale.  Returns (encoding, [(key, what, witness)])."""
+        env = dict(os.environ, LC_ALL='C', LANG='C', PYTHONUTF8='0', PYTHONCOERCECLOCALE='0', PYTHONIOENCODING='ascii:backslashreplace',
+                   PYTHONHASHSEED='0', PYTHONPATH=os.pathsep.join([os.path.dirname(os.path.dirname(os.path.dirname(os.path.abspath(__file__)))), REPO]),
+                   COBA_REPO=REPO)
+        prog = ('import sys,json,locale\nfrom vf.core import Acc\nfrom vf.props.c07 import CHECK\n'
+                'cases=json.load(sys.stdin); acc=Acc(0); CHECK.setup("quick")\n'
+                'for i,c in enumerate(cases):\n    acc._cur=(i,c); acc._order=0; CHECK.run_case(c,acc)\n'
+                'print("C07CHILD"+json.dumps({"enc":locale.getpreferredencoding(False),"v":[[k,v[1],v[2]] for k,v in sorted(acc.violations.items())]}))\n')
+        p = subprocess.run([sys.executable, '-B', '-W', 'ignore', '-c', prog], input=json.dumps(cases), env=env, capture_output=True, text=True, timeout=600)
+        line = [l for l in p.stdout.split('\n') if l.startswith('C07CHILD')]
+        if p.returncode != 0 or not line:
+            raise HarnessError(f'C-locale child failed (rc={p.returncode}): {p.stderr[-1500:]}')
+        doc = json.loads(line[-1][len('C07CHILD'):])
+        return doc['enc'], [tuple(v) for v in doc['v']]
+
+    def post(self, acc, tier):
+        cases = [dict(c, c_locale=True) for c in self.text_cases()]
+        enc, viol = self._c_locale_child(cases)
+        for n, (key, what, witness) in enumerate(viol):
+            if key in acc.violations: continue            # the same failure is already reported by the in-process run
+            acc.violation(f'{key} [only under a C locale]', f'(child python, locale encoding {enc}) {what}', witness, order=(10 ** 9, n))
+        return {'c_locale_child_cases': len(cases), 'c_locale_child_encoding': enc}
+
+    def replay(self, witness, acc):
+        if isinstance(witness, dict) and witness.get('c_locale') and not os.environ.get('C07_IN_CHILD'):
+            enc, viol = self._c_locale_child([witness])
+            for key, what, w in viol: acc.violation(f'{key} [only under a C locale]', f'(child python, locale encoding {enc}) {what}', w)
+            return
+        return self.run_case(witness, acc)
 
 
 CHECK = C07()
